@@ -465,7 +465,7 @@ func (ci *cindex) rebuildIndexInt(ctx context.Context, chk chunk.Chunk) (Records
 		}
 		rInfo.MaxTs = ts
 		rInfo.MinTs = ts
-		segmInfo = RecordsInfo{MinTs: math.MaxInt64}
+		segmInfo = RecordsInfo{MinTs: math.MaxInt64, MaxTs: math.MinInt64}
 
 		pos0 := 0
 		pos1 := 0
@@ -492,7 +492,7 @@ func (ci *cindex) rebuildIndexInt(ctx context.Context, chk chunk.Chunk) (Records
 
 			root, err = ci.writeIndexInterval(root, segmInfo, pos0, pos1)
 			pos0 = pos1
-			segmInfo = RecordsInfo{MinTs: math.MaxInt64}
+			segmInfo = RecordsInfo{MinTs: math.MaxInt64, MaxTs: math.MinInt64}
 		}
 	} else {
 		ci.logger.Info("rebuildIndex(): the chunk ", chk, " has 0 size")
